@@ -55,7 +55,8 @@ func c10vars(c *h.Ctx, idx int, staged bool, assign string, r *h.Rand) {
 	format += " Root=[%s] TempDir=[%s] Args=[%s] ArgsList=[%s]"
 	argv += " '{{.Root}}' '{{.TempDir}}' '{{.Args}}' '{{range .ArgsList}}<{{.}}>{{end}}'"
 	cmd := fmt.Sprintf("printf '%s\\n'%s >> '%s'", format, argv, trace)
-	cfg := gen.OM{{K: "variables", V: defs[0]}, {K: "tasks", V: gen.OM{{K: "t", V: gen.OM{{K: "command", V: []interface{}{cmd}}, {K: "variables", V: defs[2]}}}}}}
+	hook := func(tag string) string { return fmt.Sprintf("printf '%s\\n'%s >> '%s'", strings.Replace(format, "VARS", tag, 1), argv, trace) }
+	cfg := gen.OM{{K: "variables", V: defs[0]}, {K: "tasks", V: gen.OM{{K: "t", V: gen.OM{{K: "before", V: []interface{}{hook("BEFORE")}}, {K: "command", V: []interface{}{cmd}}, {K: "after", V: []interface{}{hook("AFTER")}}, {K: "variables", V: defs[2]}}}}}}
 	target := "t"
 	if staged {
 		cfg.Set("pipelines", gen.OM{{K: "p", V: []interface{}{gen.OM{{K: "name", V: "s1"}, {K: "task", V: "t"}, {K: "variables", V: defs[3]}}}}})
@@ -75,7 +76,7 @@ func c10vars(c *h.Ctx, idx int, staged bool, assign string, r *h.Rand) {
 		c.Violate("cli-crash/"+h.TopFrame(string(res.Stderr)), "taskctl died: "+how, cas)
 		return
 	}
-	if res.Exit != 0 || len(got) != 1 {
+	if res.Exit != 0 || len(got) != 3 {
 		sig := "vars-run-failed"
 		if strings.Contains(string(res.Stderr), "map has no entry for key") {
 			// find which level was the only one defining the missing key
@@ -98,19 +99,26 @@ func c10vars(c *h.Ctx, idx int, staged bool, assign string, r *h.Rand) {
 		c.Violate(sig, fmt.Sprintf("exit %d, trace %v: %s", res.Exit, got, tail(stripANSI(string(res.Stderr)), 300)), cas)
 		return
 	}
-	kv := parseKV(got[0])
-	for _, n := range names {
-		c.Count("names_checked", 1)
-		if kv[n] != want[n] {
-			from := "?"
-			for l := 0; l < 4; l++ {
-				if v, ok := defs[l][n]; ok && v == kv[n] {
-					from = varLevels[l]
+	kv := parseKV(got[1])
+	for li, where := range []string{"before-hook", "command", "after-hook"} {
+		kvl := parseKV(got[li])
+		for _, n := range names {
+			c.Count("names_checked", 1)
+			if kvl[n] != want[n] {
+				from := "?"
+				for l := 0; l < 4; l++ {
+					if v, ok := defs[l][n]; ok && v == kvl[n] {
+						from = varLevels[l]
+					}
 				}
+				sfx := ""
+				if where != "command" {
+					sfx = "/in-" + where
+				}
+				c.Violate(fmt.Sprintf("var-precedence/%s-beats-%s%s", from, wantLevel[n], sfx), fmt.Sprintf("%s: variable %s rendered %q, the highest level (%s) has %q", where, n, kvl[n], wantLevel[n], want[n]), cas)
 			}
-			c.Violate(fmt.Sprintf("var-precedence/%s-beats-%s", from, wantLevel[n]), fmt.Sprintf("variable %s rendered %q, the highest level (%s) has %q", n, kv[n], wantLevel[n], want[n]), cas)
+			c.Nontrivial(fmt.Sprint(n, staged, want[n]))
 		}
-		c.Nontrivial(fmt.Sprint(n, staged, want[n]))
 	}
 	if kv["Root"] == "" || kv["TempDir"] == "" {
 		c.Violate("builtin-undefined", fmt.Sprintf("Root=%q TempDir=%q", kv["Root"], kv["TempDir"]), cas)
@@ -236,7 +244,14 @@ func c10undef(c *h.Ctx, idx, n, pos int, where string, allow bool) {
 	for i := 0; i < n; i++ {
 		cmd := fmt.Sprintf("printf 'c%d[%%s]\\n' ", i)
 		if where == "command" && i == pos {
-			cmd += "'x{{.NotDefinedAnywhere}}y'"
+			switch idx % 3 {
+			case 0:
+				cmd += "'x{{.NotDefinedAnywhere}}y'"
+			case 1:
+				cmd += "'x{{.NotDefinedAnywhere}}y by default'" // the word `default` as ordinary text
+			default:
+				cmd += "'x{{.NotDefinedAnywhere}}y {{ .Root | default \"d\" }}'" // next to a use of the default function
+			}
 		} else {
 			cmd += "'ok'"
 		}
@@ -265,7 +280,7 @@ func c10undef(c *h.Ctx, idx, n, pos int, where string, allow bool) {
 	if strings.Join(got, " ") != strings.Join(want, " ") {
 		sig := "undefined-variable/command-ran"
 		for _, g := range got {
-			if strings.Contains(g, "[xy]") || strings.Contains(g, "<no value>") || strings.HasPrefix(g, "before[") {
+			if strings.Contains(g, "[xy") || strings.Contains(g, "<no value>") || strings.HasPrefix(g, "before[") {
 				sig = "undefined-variable/empty-substitution"
 			}
 		}
